@@ -44,6 +44,6 @@ void rotenc_decode(rotenc_t *r, uint8_t state)
 
 uint16_t rotenc_count14(rotenc_t *r)
 {
-	return ((r->internal_count >> 2) & 0x3f00) + r->count;
+	return r->count & 0x3fff;
 }
 
